@@ -123,6 +123,7 @@ pub fn c03(c: &mut Ctx, b: &Budget) {
             let r = c.assign(&format!("elide_set {} {} {} {}", e, if revealing { "rev" } else { "rem" }, act_s, ts));
             c.count(&format!("action:{}:{}", if revealing { "rev" } else { "rem" }, act));
             let tset: HashSet<Digest> = if ts == "-" { HashSet::new() } else { ts.split(',').filter_map(|k| c.env(k)).map(|x| x.digest().into_owned()).collect() };
+            c.no_panic(&r, "elision");
             if let Some(res) = c.env(&r) {
                 observe(c, &r);
                 let v = check_elision(&orig, &res, &tset, revealing, act);
